@@ -7,12 +7,22 @@ import c01
 from c16 import operand_fields
 
 VM = 'yarel::vm::Vm::'
-STORE = 'yarel::vm::string_store::ObjStringStore'
+STORE = 'yarel::vm::string_store::ObjStringStore'   # re-resolved in run(): the module that defines ObjStringStore
+SSMOD = 'yarel::vm::string_store'
 OBJSTRING = 'yarel::object::ObjString'
 
 
+def roles_impl(w, trait):
+    import roles
+    return roles.impl_path(w, 'ObjStringStore', trait)
+
+
 def run(rep):
+    global STORE, SSMOD
     w = rep.world('dev')
+    import roles
+    SSMOD = roles.module_of(w, 'ObjStringStore')
+    STORE = SSMOD + '::ObjStringStore'
     i1(rep, w)
     i2(rep, w)
     i3(rep, w)
@@ -135,8 +145,8 @@ def i4(rep, w):
     c = w.yarel
     r = rep.rule('I4', 'intern-table probing terminates (load factor < 1, power-of-two capacity, mask = capacity - 1) and a slot matches '
                  'only on equal hash and equal text', floor=6)
-    ml = c.consts.get('yarel::vm::string_store::MAX_LOAD', {}).get('v')
-    ic = c.consts.get('yarel::vm::string_store::INIT_CAPACITY', {}).get('v')
+    ml = c.consts.get(SSMOD + '::MAX_LOAD', {}).get('v')
+    ic = c.consts.get(SSMOD + '::INIT_CAPACITY', {}).get('v')
     if ml is None or ic is None:
         raise Broken('C11', 'anchor', 'string_store constants not found')
     mlf = f64_of(ml)
@@ -145,7 +155,7 @@ def i4(rep, w):
             'reach every slot' % ic)
     ins = w.require_fn(STORE + '::insert', 'C11')
     ac = [bi for bi, t in ins.calls() if callee_name(t) == STORE + '::adjust_capacity']
-    fi = [bi for bi, t in ins.calls() if callee_name(t) == 'yarel::vm::string_store::find_index']
+    fi = [bi for bi, t in ins.calls() if callee_name(t) == SSMOD + '::find_index']
     ok = bool(ac) and bool(fi) and all(f_ in ins.reachable_blocks(a) for a in ac for f_ in fi) and not any(a in ins.reachable_blocks(f_) for a in ac for f_ in fi)
     r.check(ok, 'insert grows the table before probing', 'insert probes before (or without) the capacity check', ins.loc())
     # growth doubles
@@ -155,7 +165,7 @@ def i4(rep, w):
     cmpok = any(s.get('r', {}).get('rv') == 'bin' and s['r']['op'] in ('Gt', 'Ge') for b in ins.blocks for s in b['s'])
     r.check(cmpok, 'insert: size + 1 > capacity * MAX_LOAD triggers growth', 'growth test changed', ins.loc())
     # mask writers
-    for p in (STORE + '::adjust_capacity', 'yarel::<vm::string_store::ObjStringStore as std::default::Default>::default'):
+    for p in (STORE + '::adjust_capacity', roles_impl(w, 'std::default::Default') + '::default'):
         f = w.require_fn(p, 'C11')
         sub1 = any(s.get('r', {}).get('rv') == 'bin' and s['r']['op'].startswith('Sub') and (op_const(s['r']['b']) or {}).get('v') == 1 for b in f.blocks for s in b['s'])
         lit = False
@@ -172,7 +182,7 @@ def i4(rep, w):
     ws = sorted({f.path for (f, sp, k) in c01.field_writers(w, STORE, 'mask') if k == 'store'})
     r.check(ws == [STORE + '::adjust_capacity'], 'mask written only by adjust_capacity', 'mask written in %s' % ws)
     # find_index: a filled slot matches only when hash == and str ==
-    fx = w.require_fn('yarel::vm::string_store::find_index', 'C11')
+    fx = w.require_fn(SSMOD + '::find_index', 'C11')
     dom = fx.dominators()
     heq = []
     seq = []
@@ -202,7 +212,7 @@ def i4(rep, w):
             'find_index returns a filled slot without comparing both the hash and the text: different strings can be identified', fx.loc())
     # single probe implementation: outside find_index, slots of the table are only addressed by an index that find_index
     # returned (a second, hand-written probe sequence must agree with the first one on every slot -- including the wrap-around)
-    FI = 'yarel::vm::string_store::find_index'
+    FI = SSMOD + '::find_index'
     n = 0
     for f in sorted(c.fns.values(), key=lambda x: x.path):
         if 'string_store' not in f.path or f.path == FI:
